@@ -1,8 +1,10 @@
 (* C05 — validation is total and its errors name a defect that is really present. *)
 From Schwifty Require Import Lib.Base Lib.Lit Model.Clean Model.Data Model.Iban Model.Bic.
 From Schwifty Require Import Spec.Iso13616 Spec.Iso9362 Spec.Defects.
-From Schwifty Require Import Proofs.CleanFacts Proofs.IbanFacts Proofs.BicFacts Proofs.TotalFacts Proofs.GenObligations.
-From Schwifty Require Import Gen.Env Gen.IbanData Gen.IbanCfg Gen.BicCfg.
+From Schwifty Require Import Model.Bban Model.Registry Model.Lookup.
+From Schwifty Require Import Proofs.CleanFacts Proofs.IbanFacts Proofs.BicFacts Proofs.TotalFacts Proofs.GenObligations
+  Proofs.GenerateFacts Proofs.NationalTotal.
+From Schwifty Require Import Gen.Env Gen.IbanData Gen.IbanCfg Gen.BicCfg Gen.Banks.
 From Coq Require Import String.
 
 Lemma C05_guard_obl : steps_guarded false false (ic_steps the_iban_cfg) = true.
@@ -17,11 +19,31 @@ Lemma C05_codes_obl : forallb (fun c => Nat.eqb (List.length c) 2) iso3166 = tru
 Proof. vm_cast_no_check (eq_refl true). Qed.
 
 (* no text makes the validating IBAN constructor raise anything outside the library's family
-   (without national validation; with it: C06/C17) *)
+   (without national validation; with it: C05_iban_total_national below) *)
 Theorem C05_iban_total : forall national txt c,
   iban_new the_env the_iban_cfg the_table national txt false false <> Crash c.
 Proof. exact (fun national => iban_total the_env the_iban_cfg the_table national env_obl env_alpha_obl cfg_obl table_obl
                 C05_guard_obl C05_chars_obl C05_strict_obl). Qed.
+
+
+(* ... and with national validation requested: the national step runs only after the structure check, and no national
+   algorithm - nor any German method - raises a foreign exception on a structurally conforming BBAN *)
+Lemma C05_guard_b_obl : steps_guarded_b false false (ic_steps the_iban_cfg) = true.
+Proof. vm_cast_no_check (eq_refl true). Qed.
+
+Definition the_national := validate_national the_table the_algos (bank_code_entries the_banks).
+
+Theorem C05_national_total : forall cc r b c,
+  find_row the_table cc = Some r -> conforms_row r b = true -> the_national cc b <> Crash c.
+Proof. exact gen_national_total. Qed.
+
+Theorem C05_iban_total_national : forall txt c,
+  iban_new the_env the_iban_cfg the_table the_national txt false true <> Crash c.
+Proof.
+  intros txt c.
+  exact (iban_total_b the_env the_iban_cfg the_table the_national env_obl env_alpha_obl cfg_obl table_obl
+           C05_chars_obl C05_strict_obl gen_national_total txt c C05_guard_b_obl).
+Qed.
 
 (* is_valid never raises, and is true exactly when validated construction succeeds *)
 Theorem C05_iban_is_valid : forall national txt,
@@ -63,6 +85,8 @@ Proof.
 Qed.
 
 Print Assumptions C05_iban_total.
+Print Assumptions C05_national_total.
+Print Assumptions C05_iban_total_national.
 Print Assumptions C05_iban_is_valid.
 Print Assumptions C05_iban_named.
 Print Assumptions C05_bic_total.
